@@ -680,7 +680,19 @@ type goyaccOut struct {
 // goyaccBin builds (once) goyacc from the x/tools version pinned by the verif
 // module and returns its path.
 func goyaccBin() (string, error) {
-	bin := filepath.Join(core.VerifDir, "bin", "goyacc")
+	// a goyacc next to the running bfecheck binary (built by setup_cmd) is used first, so that
+	// the check also works with -verif pointing at a scratch directory
+	modDir := core.VerifDir
+	if exe, err := os.Executable(); err == nil {
+		cand := filepath.Join(filepath.Dir(exe), "goyacc")
+		if st, err := os.Stat(cand); err == nil && st.Mode().IsRegular() && st.Size() > 0 {
+			return cand, nil
+		}
+		if _, err := os.Stat(filepath.Join(filepath.Dir(filepath.Dir(exe)), "go.mod")); err == nil {
+			modDir = filepath.Dir(filepath.Dir(exe))
+		}
+	}
+	bin := filepath.Join(modDir, "bin", "goyacc")
 	if st, err := os.Stat(bin); err == nil && st.Mode().IsRegular() && st.Size() > 0 {
 		return bin, nil
 	}
@@ -689,7 +701,7 @@ func goyaccBin() (string, error) {
 	}
 	tmp := bin + fmt.Sprintf(".tmp%d", os.Getpid())
 	cmd := exec.Command("go", "build", "-o", tmp, "golang.org/x/tools/cmd/goyacc")
-	cmd.Dir = core.VerifDir
+	cmd.Dir = modDir
 	cmd.Env = append(os.Environ(), "GOFLAGS=-mod=mod", "GOPROXY=off", "GOSUMDB=off", "GOTOOLCHAIN=local", "GOWORK=off")
 	if out, err := cmd.CombinedOutput(); err != nil {
 		os.Remove(tmp)
